@@ -225,6 +225,21 @@ pub fn wide_hist_strategy() -> impl Strategy<Value = Hist> {
     })
 }
 
+/// one label driven through 258-300 versions (u8 boundaries, the skip-list entry 256), a second one updated now and then
+pub fn very_deep_hist_strategy() -> impl Strategy<Value = Hist> {
+    (label_strategy(), label_strategy(), 258usize..300, any::<u16>()).prop_map(|(a, b, n, salt)| {
+        let mut batches = vec![Batch { ops: vec![Op::Set(0, 0), Op::Set(40000, 1)], dup: false }];
+        for i in 0..n {
+            let mut ops = vec![Op::Bump(0)];
+            if (i as u16).wrapping_mul(salt | 1) % 29 == 0 {
+                ops.push(Op::Bump(40000));
+            }
+            batches.push(Batch { ops, dup: false });
+        }
+        Hist { key: 0, labels: vec![a, [b, vec![0x5a]].concat()], values: vec![b"x".to_vec(), vec![]], batches }
+    })
+}
+
 pub fn mixed_hist_strategy(max_e: usize, max_ops: usize) -> impl Strategy<Value = Hist> {
     prop_oneof![
         30 => hist_strategy(1, max_e, max_ops, 10),
